@@ -83,6 +83,9 @@ class Dim(Obligation):
         b = self.run(H.Sub(mk, scaled))
         out = {}
         od = self.out_dims(mk) if callable(self.out_dims) else self.out_dims
+        if od is None:
+            # corner tables: cx_* are lengths, ct_* are times
+            od = {k: (D_LEN if k.startswith('cx_') else D_TIME) for k in a if k.startswith(('cx_', 'ct_'))}
         for k, d in od.items():
             if k not in a:
                 continue
@@ -231,6 +234,24 @@ def obligations(tier):
         out.pop('_region')
         return out
     heavy = []          # relational form of the heavy solvers: thorough tier only; Euler (infinitesimal) form always
+
+    # the region polygons of the x-t diagram: every corner is (a length, a time).  The Euler-identity form below covers the
+    # smooth pieces; WHICH piece a point falls in is unit-independent iff the corners scale with their dimensions
+    def ehep_corners(mk):
+        m = H.mod(E.EM)
+        s = m.EscapeOfHEProducts(**{n: mk(n) for n in E.PARAMS})
+        d = {}
+        for reg, pts in sorted(s.corners.items()):
+            for i, (cxv, ctv) in enumerate(pts):
+                d['cx_%s_%d' % (reg, i)] = cxv
+                d['ct_%s_%d' % (reg, i)] = ctv
+        return d
+
+    o = Dim('C08.ehep.corners', [E.EM], ehep_corners,
+            {'D': D_VEL, 'rho_0': D_RHO, 'up': D_VEL, 'xtilde': D_LEN, 'xmax': D_LEN, 'tmax': D_TIME}, None,
+            lambda V: [T.gt(V(n), T.ZERO) for n in E.PARAMS], extra_shim=E.shim_extra(),
+            functions=[H.mod(E.EM).EscapeOfHEProducts.__init__], scales=('sm', 'sl', 'st'), max_paths=100, timeout_s=20)
+    obs.append(o)
 
     def both(*a, **k):
         oid = a[0]
